@@ -136,7 +136,7 @@ def run(ctx):
     if not proved:
         ctx.cov["proof_failure"] = ctx.proof_failure
     # the same schema plus a directive `on FIELD`: field.gotpl then emits its _fieldMiddleware flavour
-    fd = gensrv.build_matrix(ctx, "execfd", ["base"] if ctx.tier == "quick" else ["base", "follow_funcsyn_wl2"])
+    fd = gensrv.build_matrix(ctx, "execfd", ["base", "follow_funcsyn_wl2"])   # both template flavours
     for k, v in fd.items():
         built["execfd:" + k] = v
     cfgs = list(cfgs) + ["execfd:" + k for k in fd]
@@ -154,11 +154,10 @@ def run(ctx):
     cfgs = list(cfgs) + ["execsub:" + k for k in sb]
     # user-written bindings: a function-pair scalar whose marshaler can answer graphql.Null (null at non-null
     # scalar positions and list elements), a MarshalGQL scalar, an object whose fields are context methods
-    try:
-        built["execboom:base"] = gensrv.build_server(ctx, "execboom", "base")
-    except RuntimeError as e:
-        built["execboom:base"] = e
-    cfgs = list(cfgs) + ["execboom:base"]
+    bm = gensrv.build_matrix(ctx, "execboom", ["base", "follow_funcsyn_wl2"])
+    for k, v in bm.items():
+        built["execboom:" + k] = v
+    cfgs = list(cfgs) + ["execboom:" + k for k in bm]
     dist = Counter()
     nontriv = set()
     total = 0
